@@ -13,7 +13,7 @@ NATIVE_PY = "/venv/bin/python"
 PLANS = {
     "C02": {
         "level": "proof",
-        "sidecars": ["charges"],
+        "sidecars": ["charges", "driver"],
         "extras": [{"name": "c02_charge_table", "module": "tables.x_checks", "func": "c02_charges", "python": "vt"},
                    {"name": "c02_termini", "module": "bounded.c02_termini", "func": "run", "python": "venv"}],
         "explanation": "state naming, residue charge, integrality guard and per-chain termini proved; force-field data "
@@ -21,7 +21,7 @@ PLANS = {
     },
     "C06": {
         "level": "proof",
-        "sidecars": ["titration"],
+        "sidecars": ["titration", "driver"],
         "extras": [{"name": "c06_support_table", "module": "tables.x_checks", "func": "c06_support", "python": "vt"}],
         "explanation": "apply_pka_values decision table proved equal to the statement for every pH/pKa, every group, "
                        "position and built-in force field, against a support oracle computed from the real pipeline",
